@@ -462,6 +462,10 @@ func c20Compound(b1, b2 string) []string {
 		"if (x) " + b1 + sep(b1) + "else if (y) " + b2,
 		"if (x) if (y) " + b1 + sep(b1) + "else " + b2,
 		"if (x) { if (y) " + b1 + " } else " + b2,
+		"if (x) " + b1 + sep(b1) + "else { if (y) " + b2 + "; z = 1 }",
+		"if (x) " + b1 + sep(b1) + "else { if (y) " + b2 + sep(b2) + "else " + b1 + "; z = 1 }",
+		"if (x) " + b1 + sep(b1) + "else { z = 1; if (y) " + b2 + " }",
+		"if (x) " + b1 + sep(b1) + "else { if (y) " + b2 + " }",
 		"while (x) " + b1,
 		"while ((getline y) > 0) " + b1,
 		"do " + b1 + sep(b1) + "while (x)",
